@@ -14,7 +14,7 @@ func C08_reply_exact() {
 	server := vChoose("side", 2) == 0
 	st := vSide(server)
 	op := ws.OpCode([]byte{9, 10, 8}[vChoose("op", 3)])
-	lens := []int{0, 1, 2, 3, 4, 125}
+	lens := []int{0, 1, 2, 3, 4, 12, 125}
 	if vTier() > 0 {
 		lens = []int{0, 1, 2, 3, 4, 5, 6, 7, 8, 9, 16, 17, 63, 64, 123, 124, 125}
 	}
@@ -38,7 +38,7 @@ func C08_reply_exact() {
 	consumed := -1
 	switch vChoose("entry", 5) {
 	case 0: // ControlHandler with plain source
-		src := vNewSrc(append([]byte{}, payload...), vChoose("mode", 2), "chunk")
+		src := vNewSrc(append([]byte{}, payload...), []int{0, 1, 5}[vChoose("mode", 3)], "chunk")
 		err = ControlHandler{Src: &src, Dst: dst, State: st, DisableSrcCiphering: true}.Handle(h)
 		consumed = src.pos
 	case 1: // ControlHandler un-ciphering a masked source itself (server side only)
@@ -49,7 +49,7 @@ func C08_reply_exact() {
 		for i := range masked {
 			masked[i] = payload[i] ^ h.Mask[i%4]
 		}
-		src := vNewSrc(masked, vChoose("mode", 2), "chunk")
+		src := vNewSrc(masked, []int{0, 1, 5}[vChoose("mode", 3)], "chunk")
 		err = ControlHandler{Src: &src, Dst: dst, State: st}.Handle(h)
 	case 2:
 		src := vNewSrc(append([]byte{}, payload...), 0, "chunk")
@@ -60,7 +60,7 @@ func C08_reply_exact() {
 		wire := vEncode(vFrame{fin: false, op: 2, masked: server, key: k, payload: []byte{'d'}})
 		wire = append(wire, vEncode(vFrame{fin: true, op: byte(op), masked: server, key: k, payload: payload})...)
 		wire = append(wire, vEncode(vFrame{fin: true, op: 0, masked: server, key: k, payload: []byte{'e'}})...)
-		rw := &vRW{vSrc: vNewSrc(wire, vChoose("mode", 2), "chunk")}
+		rw := &vRW{vSrc: vNewSrc(wire, []int{0, 1, 5}[vChoose("mode", 3)], "chunk")}
 		var data []byte
 		data, _, err = readData(rw, st, ws.OpBinary)
 		dst.all = rw.out
